@@ -63,6 +63,7 @@ class DataPacketQueue(utils.EventEmitter):
     class PerConnectionState:
         def __init__(self) -> None:
             self.in_flight = 0
+            self.queued = 0  # Packets waiting in the queue, not yet in flight
             self.drained = asyncio.Event()
 
     def __init__(
@@ -107,6 +108,9 @@ class DataPacketQueue(utils.EventEmitter):
         """Enqueue a packet associated with a connection"""
         self._packets.appendleft((packet, connection_handle))
         self._queued += 1
+        connection_state = self._connection_state[connection_handle]
+        connection_state.queued += 1
+        connection_state.drained.clear()
         self._check_queue()
 
         if self._packets:
@@ -147,6 +151,7 @@ class DataPacketQueue(utils.EventEmitter):
             self._in_flight += 1
             connection_state = self._connection_state[connection_handle]
             connection_state.in_flight += 1
+            connection_state.queued -= 1
             connection_state.drained.clear()
 
     def on_packets_completed(self, packet_count: int, connection_handle: int) -> None:
@@ -169,8 +174,6 @@ class DataPacketQueue(utils.EventEmitter):
             # credits of other connections are not affected.
             packet_count = connection_state.in_flight
             connection_state.in_flight = 0
-        if connection_state.in_flight == 0:
-            connection_state.drained.set()
 
         if packet_count <= self._in_flight:
             self._in_flight -= packet_count
@@ -183,6 +186,8 @@ class DataPacketQueue(utils.EventEmitter):
             self._completed = self._queued
 
         self._check_queue()
+        if connection_state.in_flight == 0 and connection_state.queued == 0:
+            connection_state.drained.set()
         self.emit('flow')
 
     async def drain(self, connection_handle: int) -> None:
